@@ -46,6 +46,7 @@ type World struct {
 	Trace  []string          // transcript (only when Verbose)
 	Verbose bool
 	AutoViol []Violation // violations detected by the DSL itself (handler panics)
+	Hist     []string    // names of the operations of the history being executed (for shape signatures)
 	nreq   int
 }
 
@@ -74,6 +75,9 @@ func NewWorld(conf *Conf, rc vrt.Config) *World {
 	vrt.Reset(rc)
 	vos.Reset(true)
 	w := &World{Conf: conf, Slots: map[string]string{}}
+	if conf == nil {
+		return w // a world without a server (data-structure checks)
+	}
 	c := BaseConfig()
 	switch conf.Store {
 	case "mem":
@@ -470,7 +474,9 @@ func (w *World) Canon(s string) string {
 // pending virtual timers and the model.
 func (w *World) Fingerprint(model string) (string, string) {
 	var sb strings.Builder
-	sb.WriteString(Dump(w.S))
+	if w.S != nil {
+		sb.WriteString(Dump(w.S))
+	}
 	sb.WriteString("\n--tree--\n")
 	if w.Dir != "" {
 		sb.WriteString(DumpTree(w.Dir))
